@@ -99,9 +99,11 @@ def model_runs(quick):
     facts = ("CdistExact", "WLevFacts", "LevSym")
     if quick:
         return [("facts", cfg_text(["cdist"], maxlen=3, maxm=2, maxmb=1, weights="W12", invs=facts)),
+                ("fewmany", cfg_text(["cdist"], maxlen=2, maxm=1, maxmb=2, weights="W12", invs=("CdistExact",))),
                 ("vectors", cfg_text(["pdist", "loop"], maxlen=2, maxm=3, weights="W123", invs=("PdistLayout",))),
                 ("layout", cfg_text(["layout"], maxm=12, invs=("CondBijection", "ClosedForms"), emit=False))]
     return [("facts", cfg_text(["cdist"], maxlen=3, maxm=2, maxmb=1, weights="W123", invs=facts)),
+            ("fewmany", cfg_text(["cdist"], maxlen=2, maxm=2, maxmb=3, weights="W12", invs=("CdistExact",))),
             ("facts3", cfg_text(["cdist"], letters=(0, 1, 2), maxlen=2, maxm=2, maxmb=1, weights="W137", invs=facts)),
             ("vectors", cfg_text(["pdist", "loop"], maxlen=2, maxm=4, weights="W12", invs=("PdistLayout",))),
             ("vectors3", cfg_text(["pdist", "loop"], maxlen=3, maxm=3, weights="W12", invs=("PdistLayout",))),
@@ -134,7 +136,7 @@ def make_sessions(ctx, n):
                 X = ["".join(ctx.rng.choice(letters) for _ in range(ctx.rng.randint(0, 40))) for _ in range(ctx.rng.randint(2, 5))]
                 amap = {c: i for i, c in enumerate(nc.AA)}
                 if kind == "Matrix":
-                    Y = [nc.mutate(ctx.rng, ctx.rng.choice(X), ctx.rng.randint(0, 6), letters) for _ in range(ctx.rng.randint(1, 4))]
+                    Y = [nc.mutate(ctx.rng, ctx.rng.choice(X), ctx.rng.randint(0, 6), letters) for _ in range(ctx.rng.randint(1, 7))]      # few x many and many x few
                     D = np.asarray(metric.calc_cdist_matrix(X, Y)) if sid % 8 else prs.cdist(X, Y, metric=scaled_metric, dtype=np.int64, w=tuple(w))
                     ev.update(X=[nc.enc(x, amap) for x in X], Y=[nc.enc(y, amap) for y in Y], D=[[int(v) for v in row] for row in D.tolist()])
                 else:
